@@ -12,8 +12,75 @@ TRUSTED = ['rustc MIR', 'der-parser, nom, pem, curve25519-dalek, sha2 do not pan
 ASSUMPTIONS = ['overflow checks on']
 
 
+OIDS = ('ED_25519_OID', 'X_25519_OID')
+
+
+def _oid_positive_edges(prog, body):
+    """(edges on which the parsed OID is known to equal one of the two supported constants, set of constants compared)"""
+    edges, seen = [], set()
+    for bl in body.blocks:
+        r = branch_on_call(prog, body, bl.idx)
+        if not r or r[1].cmethod not in ('eq', 'ne') or len(r[1].args) != 2:
+            continue
+        names = []
+        for a in r[1].args:
+            e = deref_expr(body, expr_of(body, a))
+            while e[0] == 'ref' or e[0] == 'cast':
+                break
+            if e[0] == 'const':
+                d = (e[2] or {}).get('promoted_def') or (e[2] or {}).get('def') or ''
+                if d.rsplit('::', 1)[-1] in OIDS:
+                    names.append(d.rsplit('::', 1)[-1])
+        if len(names) != 1:
+            continue
+        seen.add(names[0])
+        edges.append((bl.idx, r[2]))      # branch_on_call reports `ne` with the polarity of equality: r[2] is the edge taken when the two are equal
+    return edges, seen
+
+
+def _ok_blocks(body):
+    out = []
+    for bl in body.blocks:
+        if bl.cleanup:
+            continue
+        for st in bl.stmts:
+            if st.kind == 'assign' and st.rv.r == 'aggregate' and st.rv.j.get('variant') == 'Ok' and 'Result' in (st.rv.j.get('adt') or '') and st.place == (0, ()):
+                out.append(bl.idx)
+        t = bl.term
+        if t.kind == 'call' and t.dest == (0, ()) and t.cmethod in ('ok_or', 'ok_or_else', 'map', 'map_err', 'and_then'):
+            out.append(bl.idx)      # tail combinator producing the result
+    return out
+
+
+def r18_4(prog, rep):
+    """"on any other input the parsers return an error": a key structure announcing another algorithm (X448, Ed448, ..) is refused. For each DER entry point,
+    either no Ok result is reachable in it once the equal-edges of its comparisons with ED_25519_OID and X_25519_OID are cut (both constants being compared),
+    or the same holds in a parser function / combinator closure it runs (an OID check at header level)."""
+    cp = prog.crates['curve25519-parser']
+    for name in ('parse_openssl_25519_pubkey_der', 'parse_openssl_25519_privkey_der'):
+        E = one_body(prog, rep, 'R18.4', 'curve25519-parser', exact=name)
+        if E is None:
+            continue
+        rep.fn(E)
+        fam = [b for b in reachable_bodies(prog, [E]) if b.pkg == 'curve25519-parser']
+        verdicts = []
+        for b in [E] + [x for x in fam if x.key != E.key]:
+            edges, seen = _oid_positive_edges(prog, b)
+            if seen != set(OIDS):
+                continue
+            r = reachable_vs(b, 0, removed_edges=edges)
+            oks = [x for x in _ok_blocks(b) if x in r]
+            verdicts.append((b.nkey, not oks))
+        ok = any(v for _, v in verdicts)
+        rep.ob('R18.4', ok, 'R18.4|%s|unknown-algorithm-refused' % E.nkey,
+               'an Ok result requires the OID to equal ED_25519_OID or X_25519_OID (%s)' % ', '.join(k for k, v in verdicts if v) if ok else
+               'a key whose algorithm identifier is neither Ed25519 nor X25519 is not refused: no function on this parse path makes its Ok results depend on both OID comparisons '
+               '(%s)' % (', '.join('%s: Ok reachable without a match' % k for k, v in verdicts) or 'no function compares the OID with both constants'), E.loc())
+
+
 def run(prog, rep, tier):
     scope, taint, seen, table = c08.run_census(prog, rep, 'c18', 'PANIC18')
+    r18_4(prog, rep)     # unknown algorithm identifiers are refused
     rep.note('%d panic sites in the key-parser scope' % len(seen))
     # positive control: the parser still has its indexing sites and they are discharged by facts, not by the table
     via_table = [k for k in seen if k in table]
